@@ -219,7 +219,8 @@ def poly_equal(e1, e2, atoms, bits=32):
     """Identity of two add/sub/mul/const expressions over atoms modulo 2^bits, by evaluation on a grid
     (4 points per variable: polynomials of degree <= 3 per variable over a ring are decided only
     heuristically in general, so the caller additionally requires both sides to be built from add/sub/mul)."""
-    for vals in product((0, 1, 2, 5), repeat=len(atoms)):
+    grid = (0, 1, 2, 5) if len(atoms) > 3 else (0, 1, 2, 5, 63, 64, 128, 255, 256, 1000, 65535)
+    for vals in product(grid, repeat=len(atoms)):
         env = dict(zip(atoms, vals))
         try:
             a = eval_concrete(e1, env) & paths.mask(bits)
